@@ -11,7 +11,7 @@ class _RL(dict):
 UNIT_RLIMIT = _RL({"div_small": 80, "mul_redc": 80})      # unit -> --rlimit (Verus default is 10; 5x head-room over the measured maximum)
 UNIT_TIMEOUT = {"knuth": 1500, "addmul": 900, "mul_redc": 1200}     # unit -> seconds
 UNIT_EXPECT = {       # unit -> minimum number of verified functions on the unchanged tree (vacuity guard)
-    "core": 31, "add": 29, "kernels": 79, "addmul": 71, "addmul_n": 73, "mul": 51, "divd": 45, "div_small": 235, "knuth": 145, "mul_redc": 124, "basics": 22, "pow": 38, "divw": 54, "modular": 63, "spigot": 44, "gcd": 21, "forward": 57, "invring": 36, "bitlen": 70, "shifts": 121, "recip_table": 2, "gcdext": 64, "gcdw": 33,
+    "core": 31, "add": 29, "kernels": 79, "addmul": 71, "addmul_n": 73, "mul": 51, "divd": 45, "div_small": 235, "knuth": 145, "mul_redc": 124, "basics": 22, "pow": 38, "divw": 54, "modular": 63, "spigot": 44, "gcd": 21, "forward": 57, "invring": 36, "bitlen": 70, "shifts": 121, "recip_table": 2, "gcdext": 64, "gcdw": 33, "bits": 60,
 }
 
 COMMON_TRUST = [
@@ -146,15 +146,17 @@ PROPS = {
         level="other",
         level_text="Kani proves per width, for ALL values and fully symbolic usize indices: !, &, |, ^ (all operator shapes) act limb-wise with the top limb masked; bit / set_bit (with whole-array frame) / byte / checked_byte "
                    "address exactly the stated position and out-of-range indices read false / None / write nothing / panic (byte); leading/trailing zeros and ones, count_ones/zeros, bit_len, byte_len, reverse_bits, "
-                   "is_power_of_two, (checked_)next_power_of_two and most_significant_bits equal their definitions over the BITS-wide binary expansion. Verus additionally proves leading_zeros, bit_len and byte_len for ALL widths",
-        level_note="per-width (13 widths for logic/access, 8-11 for the counting functions; loops closed by LIMBS so each harness is complete for its width), not an all-widths proof except leading_zeros/bit_len/byte_len; "
+                   "is_power_of_two, (checked_)next_power_of_two and most_significant_bits equal their definitions over the BITS-wide binary expansion. Verus additionally proves for ALL widths: bit (= bit index of the binary "
+                   "expansion of the value, false out of range), set_bit (every bit of the result: the addressed one takes the value, all others unchanged; out-of-range writes nothing; canonical), not (= 2^BITS - 1 - value), "
+                   "leading_zeros, leading_ones, bit_len, byte_len",
+        level_note="per-width (13 widths for logic/access, 8-11 for the counting functions; loops closed by LIMBS so each harness is complete for its width), not an all-widths proof except bit/set_bit/not/leading_zeros/leading_ones/bit_len/byte_len; "
                    "count_ones at >= 128 bits is decided by an inductive characterisation (count(0) = 0, setting a clear bit adds 1) instead of a direct comparison; must_panic harnesses prove reachability of the panic",
-        technique="Kani contract harnesses on the compiled crate, complete per width + deductive contracts (Verus, all widths) for leading_zeros / bit_len / byte_len",
-        units=["core", "bitlen"],
+        technique="Kani contract harnesses on the compiled crate, complete per width + deductive contracts (Verus, all widths) for bit / set_bit / not / leading_zeros / leading_ones / bit_len / byte_len",
+        units=["core", "bitlen", "bits"],
         kani=dict(features=None, quick=hs("c06"), thorough=hs("c06"), bounds="widths 0,1,8,60,63,64,65,100,128,129,192,250,256 (per family see kani/src/c06.rs); all values; all usize indices"),
         explanation="harness-level contracts with bit-by-bit oracles",
         trusted=COMMON_TRUST,
-        not_decided=["widths other than the listed ones (except leading_zeros, bit_len, byte_len)"],
+        not_decided=["widths other than the listed ones (except bit, set_bit, not, leading_zeros, leading_ones, bit_len, byte_len)"],
     ),
     "C07": dict(
         level="other",
